@@ -118,7 +118,7 @@ def check_one(ctx, rec, route):
 QUICK_N = dict(
     seq=140, seqview=50, coll=60, aligned=35, collseq=35, newcoll=35, newcollseq=45, seqsdata=12, tree=60, table=50,
     dictarray=40, distmat=25, alphabet=25, moltype=6, newalphabet=30, indelmap=60, featuremap=60, db=14, model=14,
-    lf=16, nc=30, result=30,
+    lf=24, nc=30, result=30,
 )
 
 
